@@ -79,6 +79,24 @@ def run(ctx):
         vo = dep.arg_origins(ad, ins[0][0], 2, through_calls=False)
         okk = dep.has_param(ko, "key") and dep.has_param(vo, "value") and any(a[0] == "agg" and a[1].endswith("ip_table::Obm") for a in ko)
     (ctx.ok if okk else ctx.bad)("R-FIRST", "R-FIRST:IpTable::add", ad.span, "add(net, v) = table.insert(Obm(net), v): adding twice replaces" if okk else "IpTable::add is no longer a keyed replace-insert")
+    # the table is searched with its own key type: a keyed operation (get / remove / contains_key / entry / range) takes
+    # an Obm, whose Ord is the order the map is laid out in.  Searching through a Borrow<Q> impl whose Q orders
+    # differently walks the tree by the wrong order and misses entries that are there.
+    for b in prog.bodies.values():
+        for bb, t in K.calls(b):
+            ck = F.callee_key(t) or ""
+            nm = ck.rsplit("::", 1)[-1]
+            if ck.startswith("alloc::collections::btree::map::") and nm in ("get", "remove", "contains_key", "get_mut", "remove_entry", "get_key_value") and len(F.call_args(t)) >= 2 \
+                    and dep.has_field(dep.arg_origins(b, bb, 0, through_calls=False), "IpTable", "table"):
+                pl = F.op_place(F.call_args(t)[1])
+                kty = b.local_tystr(pl[0]) if pl is not None else "?"
+                ok = kty.replace("&", "").strip().endswith("ip_table::Obm")
+                (ctx.ok if ok else ctx.bad)("R-FIRST", "R-FIRST:table.%s-key@%s" % (nm, b.key.rsplit("::", 1)[-1]), F.call_loc(t),
+                    "searched with an Obm key" if ok else "IpTable.table.%s is searched with a %s instead of the map's own key type Obm: the lookup follows %s's order, not the mask-length order the map is laid out in, and misses entries that are present" % (nm, kty.replace("&", ""), kty.replace("&", "").rsplit("::", 1)[-1]))
+    borrows = [b for b in prog.bodies.values() if b.kind == "method" and b.impl_trait == "core::borrow::Borrow" and b.self_ty is not None
+               and b.types[b.self_ty].get("k") == "adt" and b.types[b.self_ty]["d"].endswith("ip_table::Obm")]
+    (ctx.bad if borrows else ctx.ok)("R-FIRST", "R-FIRST:Obm:Borrow", borrows[0].span if borrows else None,
+        "Obm implements Borrow<_>: the borrowed form must order exactly like Obm (mask length first), which no other type here does" if borrows else "Obm has no Borrow impl: the map can only be searched in its own order")
     # who writes the table
     for b in prog.bodies.values():
         for bb, t in K.calls(b):
